@@ -43,7 +43,7 @@ type Frame struct {
 	prefix    string
 	depth     int
 	closures  map[ssa.Value]*closureVal
-	defers    []ssa.CallCommon
+	defers    []*ssa.CallCommon
 	deferPos  []token.Pos
 	rets      []*retInfo
 	loops     map[*ssa.BasicBlock]*loopInfo
@@ -53,6 +53,7 @@ type Frame struct {
 	spec      *FuncSpec
 	phiEdge   map[phiEdgeKey]Term
 	backStates map[*ssa.BasicBlock][]*State
+	siteOrd   map[*ssa.CallCommon]int // ordinal of a call site among the calls of the same callee, in source order
 }
 
 func (fr *Frame) oblName(n string) string {
@@ -320,6 +321,43 @@ func (fc *FnCtx) newFrame(fn *ssa.Function, parent *Frame) *Frame {
 		params: map[string]Term{}, closures: map[ssa.Value]*closureVal{}, freeVars: map[*ssa.FreeVar]Term{}, callCount: map[string]int{}, phiEdge: map[phiEdgeKey]Term{}, backStates: map[*ssa.BasicBlock][]*State{}}
 	fr.promoted = computePromoted(fn)
 	fr.loops = findLoops(fn)
+	fr.siteOrd = map[*ssa.CallCommon]int{}
+	type site struct {
+		c   *ssa.CallCommon
+		pos token.Pos
+		key string
+		seq int
+	}
+	var sites []site
+	seq := 0
+	for _, b := range fn.Blocks {
+		for _, in := range b.Instrs {
+			ci, ok := in.(ssa.CallInstruction)
+			if !ok {
+				continue
+			}
+			c := ci.Common()
+			key := ""
+			if bi, isB := c.Value.(*ssa.Builtin); isB {
+				key = "builtin." + bi.Name()
+			} else {
+				key, _ = fr.calleeKey(c)
+			}
+			seq++
+			sites = append(sites, site{c, in.Pos(), key, seq})
+		}
+	}
+	sort.SliceStable(sites, func(i, j int) bool {
+		if sites[i].pos != sites[j].pos {
+			return sites[i].pos < sites[j].pos
+		}
+		return sites[i].seq < sites[j].seq
+	})
+	cnt := map[string]int{}
+	for _, s := range sites {
+		cnt[s.key]++
+		fr.siteOrd[s.c] = cnt[s.key]
+	}
 	if parent != nil {
 		fr.depth = parent.depth + 1
 	}
@@ -468,6 +506,9 @@ func (fr *Frame) enterLoop(li *loopInfo, st *State) {
 
 func (fr *Frame) havocComp(st *State, c string) {
 	fc := fr.fc
+	if strings.HasPrefix(c, "FX_") {
+		return // effect markers are not heap components
+	}
 	sortS := fc.comps[c]
 	v := fc.fresh(c, sortS, nil)
 	st.heap[c] = v
